@@ -1,6 +1,7 @@
 package basicnode
 
 import (
+	"fmt"
 	"io"
 
 	"github.com/ipld/go-ipld-prime/datamodel"
@@ -68,7 +69,8 @@ func (streamBytes) AsString() (string, error) {
 	return mixins.Bytes{TypeName: "bytes"}.AsString()
 }
 func (n streamBytes) AsBytes() ([]byte, error) {
-	return io.ReadAll(n)
+	// Read through a cursor of our own, from the start: reading a node must be repeatable.
+	return io.ReadAll(&streamBytesCursor{rs: n.ReadSeeker})
 }
 func (streamBytes) AsLink() (datamodel.Link, error) {
 	return mixins.Bytes{TypeName: "bytes"}.AsLink()
@@ -77,5 +79,46 @@ func (streamBytes) Prototype() datamodel.NodePrototype {
 	return Prototype__Bytes{}
 }
 func (n streamBytes) AsLargeBytes() (io.ReadSeeker, error) {
-	return n.ReadSeeker, nil
+	// Each call returns a separate instance with its own read position,
+	// as the LargeBytesNode contract requires.
+	return &streamBytesCursor{rs: n.ReadSeeker}, nil
+}
+
+// streamBytesCursor is an independent read position over the ReadSeeker a
+// streamBytes node was made from: it remembers its own offset and positions
+// the underlying stream before every read, so that several readers of one
+// node (and AsBytes) do not disturb each other.
+type streamBytesCursor struct {
+	rs  io.ReadSeeker
+	off int64
+}
+
+func (c *streamBytesCursor) Read(p []byte) (int, error) {
+	if _, err := c.rs.Seek(c.off, io.SeekStart); err != nil {
+		return 0, err
+	}
+	n, err := c.rs.Read(p)
+	c.off += int64(n)
+	return n, err
+}
+
+func (c *streamBytesCursor) Seek(offset int64, whence int) (int64, error) {
+	switch whence {
+	case io.SeekStart:
+	case io.SeekCurrent:
+		offset += c.off
+	case io.SeekEnd:
+		end, err := c.rs.Seek(0, io.SeekEnd)
+		if err != nil {
+			return 0, err
+		}
+		offset += end
+	default:
+		return 0, fmt.Errorf("streamBytes: invalid whence %d", whence)
+	}
+	if offset < 0 {
+		return 0, fmt.Errorf("streamBytes: negative position")
+	}
+	c.off = offset
+	return offset, nil
 }
